@@ -11,7 +11,7 @@
             CALL = (1 x) | (2 x y) | (p x): every application of the verb / predicate, in order.
    The verbs are a small expression language over integers and lists; whatever it does not cover
    (reals, NumPy broadcasting of unequal shapes, arithmetic on characters) answers (err 99 ...). *)
-From Coq Require Import ZArith List String Bool.
+From Coq Require Import ZArith List String Bool Floats.SpecFloat.
 From KB Require Import Sx.
 From C02 Require Import Generated Model Spec.
 Import ListNotations.
@@ -21,12 +21,36 @@ Open Scope Z_scope.
 Definition L := list call.
 Definition MV := M L.
 
+(* ------------------------------------------------------------------ binary64 <-> its 64 bits *)
+Definition P52 : Z := 4503599627370496.
+Definition sf_of_bits (b : Z) : spec_float :=
+  let sgn := Z.leb 9223372036854775808 b in
+  let r := if sgn then b - 9223372036854775808 else b in
+  let e := r / P52 in
+  let m := r mod P52 in
+  if Z.eqb e 0 then
+    match m with Zpos p => S754_finite sgn p (-1074) | _ => S754_zero sgn end
+  else if Z.eqb e 2047 then (if Z.eqb m 0 then S754_infinity sgn else S754_nan)
+  else match m + P52 with Zpos p => S754_finite sgn p (e - 1075) | _ => S754_nan end.
+
+Definition bits_of_sf (f : spec_float) : Z :=
+  let sb (s : bool) := if s then 9223372036854775808 else 0 in
+  match f with
+  | S754_zero s => sb s
+  | S754_infinity s => sb s + 2047 * P52
+  | S754_nan => 2047 * P52 + P52 / 2            (* the quiet NaN; the harness compares NaNs as NaN *)
+  | S754_finite s m e =>
+      if Z.ltb (Zpos m) P52 then sb s + Zpos m
+      else sb s + (e + 1075) * P52 + (Zpos m - P52)
+  end.
+
 (* ------------------------------------------------------------------ values <-> sx *)
 Fixpoint val_of_sx (fuel : nat) (x : sx) : option val :=
   match fuel with O => None | Datatypes.S f =>
   match x with
   | SL (SS t :: rest) =>
       if is_tag "i" t then match rest with [SZ z] => Some (VInt z) | _ => None end else
+      if is_tag "r" t then match rest with [SZ z] => Some (VReal (sf_of_bits z)) | _ => None end else
       if is_tag "c" t then match rest with [SZ z] => Some (VChar z) | _ => None end else
       if is_tag "s" t then option_map VStr (sx_get_zs rest) else
       if is_tag "l" t then
@@ -52,6 +76,7 @@ Fixpoint val_of_sx (fuel : nat) (x : sx) : option val :=
 Fixpoint sx_of_val (v : val) : sx :=
   match v with
   | VInt z => SL [sx_w "i"; SZ z]
+  | VReal f => SL [sx_w "r"; SZ (bits_of_sf f)]
   | VChar z => SL [sx_w "c"; SZ z]
   | VStr s => SL (sx_w "s" :: map SZ s)
   | VList l => SL (sx_w "l" :: map sx_of_val l)
@@ -68,22 +93,32 @@ Definition sx_of_call (c : call) : sx :=
 (* ------------------------------------------------------------------ the closed set of verbs *)
 Fixpoint numeric (v : val) : bool :=
   match v with
-  | VInt _ => true
+  | VInt _ | VReal _ => true
   | VList l => forallb numeric l
   | _ => false
   end.
+Fixpoint has_real (v : val) : bool :=
+  match v with
+  | VReal _ => true
+  | VList l => existsb has_real l
+  | _ => false
+  end.
 
-Definition arith (u : Z -> Z -> Z) (a b : val) : res val :=
+Definition arith (u : num -> num -> num) (a b : val) : res val :=
   if numeric a && numeric b then ew2 u a b else Err E_UNMODELLED.
+(* Equal on reals is a tolerance comparison (C01): integers only *)
+Definition arith_int (zf : Z -> Z -> Z) (a b : val) : res val :=
+  if has_real a || has_real b then Err E_UNMODELLED
+  else arith (fun x y => match x, y with NI p, NI q => NI (zf p q) | _, _ => NI 0 end) a b.
 Definition b2z (b : bool) : Z := if b then 1 else 0.
 (* np.minimum / np.maximum on ragged (object) operands raise in NumPy: only atoms, vectors, matrices *)
 Definition flat_or_rect (v : val) : bool :=
   match v with
-  | VInt _ => true
+  | VInt _ | VReal _ => true
   | VList l => match classify l with Other => match l with [] => true | _ => false end | _ => true end
   | _ => false
   end.
-Definition arith_flat (u : Z -> Z -> Z) (a b : val) : res val :=
+Definition arith_flat (u : num -> num -> num) (a b : val) : res val :=
   if flat_or_rect a && flat_or_rect b then arith u a b else Err E_UNMODELLED.
 
 Definition v_list (x : val) : val := match x with VChar c => VStr [c] | _ => VList [x] end.
@@ -93,31 +128,37 @@ Definition bindr {A B} (r : res A) (k : A -> res B) : res B :=
 
 Definition dyad_of (id : list Z) : option (val -> val -> res val) :=
   let is s := is_tag s id in
-  if is "+" || is "L+" then Some (arith Z.add) else
-  if is "-" || is "L-" then Some (arith Z.sub) else
-  if is "*" || is "L*" then Some (arith Z.mul) else
-  if is "&" || is "L&" then Some (arith_flat Z.min) else
-  if is "|" || is "L|" then Some (arith_flat Z.max) else
-  if is "=" || is "L=" then Some (arith (fun x y => b2z (Z.eqb x y))) else
-  if is "<" || is "L<" then Some (arith (fun x y => b2z (Z.ltb x y))) else
-  if is ">" || is "L>" then Some (arith (fun x y => b2z (Z.gtb x y))) else
+  if is "+" || is "L+" then Some (arith n_add) else
+  if is "-" || is "L-" then Some (arith n_sub) else
+  if is "*" || is "L*" then Some (arith n_mul) else
+  if is "%" || is "L%" then Some (fun a b => if numeric a && numeric b
+                                             then match klong_div a b with Err _ => Err E_UNMODELLED | r => r end   (* :undefined is not a value of the model *)
+                                             else Err E_UNMODELLED) else
+  if is "&" || is "L&" then Some (arith_flat n_min) else
+  if is "|" || is "L|" then Some (arith_flat n_max) else
+  if is "=" || is "L=" then Some (arith_int (fun x y => b2z (Z.eqb x y))) else
+  if is "<" || is "L<" then Some (arith n_lt) else
+  if is ">" || is "L>" then Some (arith n_gt) else
   if is "," || is "L," then Some join else
-  if is "%" || is "L%" then Some (fun _ _ => Err E_UNMODELLED) else
-  if is "Lnc" || is "named" then Some (fun x y => bindr (arith Z.mul (VInt 2) y) (fun t => arith Z.sub x t)) else
-  if is "Ldec" then Some (fun x y => bindr (arith Z.mul x (VInt 10)) (fun t => arith Z.add t y)) else
+  if is "Lnc" || is "named" then Some (fun x y => bindr (arith n_mul (VInt 2) y) (fun t => arith n_sub x t)) else
+  if is "Ldec" then Some (fun x y => bindr (arith n_mul x (VInt 10)) (fun t => arith n_add t y)) else
   if is "Lsnd" then Some (fun _ y => Ok y) else
   if is "Lfst" then Some (fun x _ => Ok x) else
   if is "Lnest" then Some (fun x y => match x with
-                                     | VList l => if existsb is_list l then Err E_UNMODELLED else join (v_list x) y   (* Join of a rank-3 and a rank-2 array is C01's *)
+                                     | VList l => match classify l with
+                                                  | NumMat _ _ => Err E_UNMODELLED       (* Join of a rank-3 and a rank-2 array is C01's *)
+                                                  | _ => join (v_list x) y
+                                                  end
                                      | _ => join (v_list x) y
                                      end) else
-  if is "proj" || is "nproj" then Some (fun x y => bindr (arith Z.mul y (VInt 2)) (fun t => arith Z.add x t)) else
-  if is "py" then Some (fun x y => bindr (arith Z.mul x (VInt 2)) (fun t => arith Z.add t y)) else
+  if is "proj" || is "nproj" then Some (fun x y => bindr (arith n_mul y (VInt 2)) (fun t => arith n_add x t)) else
+  if is "py" then Some (fun x y => bindr (arith n_mul x (VInt 2)) (fun t => arith n_add t y)) else
   None.
 
 Definition v_size (x : val) : res val :=
   match x with
   | VInt z => Ok (VInt (Z.abs z))          (* the magnitude of a number *)
+  | VReal f => Ok (VReal (SFabs f))
   | VChar c => Ok (VInt c)
   | VStr s => Ok (VInt (Z.of_nat (List.length s)))
   | VList l => Ok (VInt (Z.of_nat (List.length l)))
@@ -140,7 +181,21 @@ Definition v_first (x : val) : res val :=
   | other => Ok other
   end.
 
-Definition v_neg (x : val) : res val := arith Z.sub (VInt 0) x.
+Fixpoint negv (x : val) : val :=
+  match x with
+  | VInt z => VInt (- z)
+  | VReal f => VReal (SFopp f)
+  | VList l => VList (map negv l)
+  | other => other
+  end.
+Definition v_neg (x : val) : res val := if numeric x then Ok (negv x) else Err E_UNMODELLED.
+
+Definition num_gt5 (x : val) : option bool :=
+  match x with
+  | VInt z => Some (Z.gtb z 5)
+  | VReal f => Some (SFltb (of_Z 5) f)
+  | _ => None
+  end.
 
 (* {,/x}: Join-Over, through the model's own Over with the operator shortcut *)
 Definition v_flat (x : val) : res val :=
@@ -153,21 +208,25 @@ Definition monad_of (id : list Z) : option (val -> res val) :=
   if is "," || is "L," then Some (fun x => Ok (v_list x)) else
   if is "|" then Some v_reverse else
   if is "*" then Some v_first else
-  if is "Linc" || is "proj" || is "py" then Some (fun x => arith Z.add x (VInt 1)) else
+  if is "Linc" || is "proj" || is "py" then Some (fun x => arith n_add x (VInt 1)) else
   if is "Ldup" then Some (fun x => join x x) else
   if is "Lid" then Some (fun x => Ok x) else
   if is "Lone" then Some (fun _ => Ok (VInt 1)) else
-  if is "Ldbl" then Some (fun x => arith Z.mul x (VInt 2)) else
-  if is "Lcap" || is "pycap" then Some (fun x => match x with VInt z => Ok (VInt (if Z.gtb z 5 then z else z + 1)) | _ => Err E_UNMODELLED end) else
+  if is "Ldbl" then Some (fun x => arith n_mul x (VInt 2)) else
+  if is "Lcap" || is "pycap" then Some (fun x => match num_gt5 x with Some true => Ok x | Some false => arith n_add x (VInt 1) | None => Err E_UNMODELLED end) else
+  if is "Lnewton" then Some (fun x => match x with
+                                      | VInt _ | VReal _ =>
+                                          bindr (arith n_div (VInt 2) x) (fun q => bindr (arith n_add x q) (fun t => arith n_div t (VInt 2)))
+                                      | _ => Err E_UNMODELLED end) else
   if is "Lhalf" then Some (fun x => match x with VInt z => if Z.leb 0 z then Ok (VInt (z / 2)) else Err E_UNMODELLED | _ => Err E_UNMODELLED end) else
   if is "Lcons" then Some (fun x => join (VInt 1) x) else
   if is "Lflat" then Some v_flat else
-  if is "named" then Some (fun x => bindr (arith Z.mul x (VInt 3)) (fun t => arith Z.add t (VInt 1))) else
+  if is "named" then Some (fun x => bindr (arith n_mul x (VInt 3)) (fun t => arith n_add t (VInt 1))) else
   None.
 
 Definition pred_of (id : list Z) : option (val -> res val) :=
   let is s := is_tag s id in
-  let cmp (k : Z) := fun x => match x with VInt z => Ok (VInt (b2z (Z.ltb z k))) | _ => Err E_UNMODELLED end in
+  let cmp (k : Z) := fun x => match num_of x with Some n => Ok (vnum (n_lt n (NI k))) | None => Err E_UNMODELLED end in
   if is "lt10" then Some (cmp 10) else
   if is "lt0" then Some (cmp 0) else
   if is "lt30" then Some (cmp 30) else
